@@ -32,6 +32,7 @@ def main():
     if "--props" in sys.argv:
         props = sys.argv[sys.argv.index("--props") + 1].split(",")
     skip_confirm = "--skip-confirm" in sys.argv
+    confirm_only = "--confirm-only" in sys.argv
     seed = f"/tmp/seed-{prop}/{which}"
     wt = f"/tmp/wt-{prop}"
     notes = json.load(open(os.path.join(seed, "notes.json")))
@@ -64,7 +65,13 @@ def main():
         confirmed = (rc0 == 0 and rc1 != 0 and not bad_targets and ok >= 152)
         print(f"[{prop}-{which}] demo without patch rc={rc0}, with patch rc={rc1}; suite with patch: {ok} passed, other failing targets {bad_targets} -> confirmed={confirmed}")
         if not confirmed:
-            print("NOT CONFIRMED; not kept"); print(out1[-600:]); sys.exit(3)
+            print("NOT CONFIRMED; not kept"); print(out0[-600:] if rc0 else out1[-600:]); sys.exit(3)
+        json.dump({"confirmed": confirmed, "ran": ran}, open(os.path.join(seed, "confirm.json"), "w"), indent=1)
+        if confirm_only:
+            return
+    elif os.path.exists(os.path.join(seed, "confirm.json")):
+        c = json.load(open(os.path.join(seed, "confirm.json")))
+        confirmed, ran = c["confirmed"], c["ran"]
     # step 2
     rc, out = sh("git status --porcelain --untracked-files=no", cwd="/repo")
     if out.strip():
